@@ -92,11 +92,13 @@ def enabled_ops(lv, model):
                 continue
             if u in model["ups"][d]:
                 ops.append(("disconnect", u, d))
+                if kinds[d - 1] != "sink":
+                    ops.append(("destroy_from", d, u))
             elif kinds[d - 1] in ("zip", "combine_latest", "union") or (kinds[d - 1] in ("sink", "map", "stream") and not model["ups"][d]):
                 if d not in reach_up(model, u) and kinds[u - 1] != "sink":
                     ops.append(("connect", u, d))
     for x in held:
-        if model["ups"][x] and kinds[x - 1] in ("sink", "map", "stream", "union"):
+        if model["ups"][x] and kinds[x - 1] in ("sink", "map", "stream", "union", "zip", "combine_latest"):
             ops.append(("destroy", x, 0))
         if not (kinds[x - 1] == "stream" and not model["ups"][x]):
             ops.append(("dropref", x, 0))
@@ -151,6 +153,9 @@ def run_trace(name, prog, rng, nops):
                 elif kind == "destroy":
                     lv.node(a).destroy()
                     model["ups"][a] = []
+                elif kind == "destroy_from":
+                    lv.node(a).destroy(streams=[lv.node(b)])
+                    model["ups"][a].remove(b)
                 elif kind == "dropref":
                     del lv.names[a]
                     model["held"].discard(a)
